@@ -72,8 +72,22 @@ func VerifC06CommitEqualsAllocate() {
 	if errA != nil || errB != nil {
 		return
 	}
+	// the caller may look at the offer before committing it (the offer's own
+	// accessors are pure: what they report is what Commit then does)
+	inspected := verifParam("inspectOffer", 1) != 0 && verifChoice("inspect", 2) == 1
+	var seenZone NodeMask
+	var seenUpd map[string]NodeMask
+	if inspected {
+		seenZone = offer.NodeMask()
+		seenUpd = offer.Updates()
+		verifAssert("C06.offer-valid-before-commit", offer.IsValid())
+	}
 	zoneA, updA, errC := offer.Commit()
 	verifCover("twin-committed")
+	if inspected && errC == nil {
+		verifCover("twin-inspected")
+		verifAssert("C06.offer-reports-what-commit-does", verifAnd(seenZone == zoneA, verifMapsEqual(seenUpd, updA)))
+	}
 	verifAssert("C06.fresh-offer-commits", errC == nil)
 	if errC != nil {
 		return
